@@ -239,10 +239,16 @@ fn stream_credit_case(seed: u64, trace: bool) -> CaseOut {
     h.retry_lifetime_ms = 10_000_000;
     let mut r = Rng::new(seed ^ 0x5C);
     h.net.fault_until_ns = 0;
+    h.cid_lifetime_ms = None;
     for t in h.cli_t.iter_mut().chain([&mut h.srv_t]) {
         t.max_bidi = 1 + r.below(3);
         t.max_uni = 1 + r.below(3);
         t.keep_alive_ms = None;
+        t.pad_to_mtu = false;
+        // (byte windows are not what this group is about: starved ones only make worlds slow)
+        t.send_window = t.send_window.max(100_000);
+        t.stream_rwnd = t.stream_rwnd.max(20_000);
+        t.rwnd = t.rwnd.max(60_000);
     }
     for a in h.cli_app.iter_mut().chain([&mut h.srv_app]) {
         a.dgram_count = 0;
@@ -317,7 +323,7 @@ pub fn run(ctx: &Ctx) -> i32 {
     run_group(ctx, &mut rep, &g, |idx, _, trace| enum_case(idx, kb, Lane::Null, trace));
     let g = Group { name: "random-null", cases: ctx.tier.pick(1500, 120_000), budget_s: ctx.tier.pick(45.0, 720.0), exhaustive: false };
     run_group(ctx, &mut rep, &g, |_, seed, trace| random_case(seed, Lane::Null, trace));
-    let g = Group { name: "stream-credit", cases: ctx.tier.pick(1500, 60_000), budget_s: ctx.tier.pick(15.0, 150.0), exhaustive: false };
+    let g = Group { name: "stream-credit", cases: ctx.tier.pick(8000, 400_000), budget_s: ctx.tier.pick(15.0, 150.0), exhaustive: false };
     run_group(ctx, &mut rep, &g, |_, seed, trace| stream_credit_case(seed, trace));
     let g = Group { name: "busy-poll", cases: ctx.tier.pick(200, 20_000), budget_s: ctx.tier.pick(20.0, 200.0), exhaustive: false };
     run_group(ctx, &mut rep, &g, |_, seed, trace| busy_poll_case(seed, trace));
